@@ -44,15 +44,22 @@ TPartials == <<Incl(V("pv")), Txt("|"), Rend(S("p")), Txt("|"), IfT(V("bad"), <<
 TNested   == <<Loop("i", 1, 2, <<Incl(S("p")), Rend(V("pv")), Cyc("g")>>), Read("a"), Read("zz")>>
 TTop      == <<Txt("a"), Inc("c"), [t |-> "break"], Txt("never")>>
 
+\* a partial stored as "q.liquid": render finds it through the fallback, include of the bare name never does -
+\* whatever was rendered before on the same parser
+RendQ == [t |-> "render", name |-> S("q"), mode |-> "plain", args |-> <<>>]
+TLiquid == <<RendQ, Txt("|"), IfT(V("bad"), <<Incl(S("q"))>>), Txt(".")>>
+TLiquid2 == <<IfT(V("w"), <<Incl(S("q.liquid"))>>), IfT(V("bad"), <<Incl(S("q"))>>), RendQ>>
 Triples ==
-  [ t1 |-> <<TStateful, TBreakErr, TTablerow>>,
+  [ t4 |-> <<TLiquid, TLiquid2, TPartials>>,
+    t1 |-> <<TStateful, TBreakErr, TTablerow>>,
     t2 |-> <<TPartials, TNested, TStateful>>,
     t3 |-> <<TTop, TPartials, TBreakErr>> ]
 
 PartSet ==
-  [n \in {"p", "p2", "broken"} |->
+  [n \in {"p", "p2", "broken", "q.liquid"} |->
      CASE n = "p"  -> [ok |-> TRUE, body |-> <<Txt("P"), Out(V("v")), Cyc("g"), Inc("c"), Assign_("zz", S("Z")), Changed(<<Txt("c")>>)>>]
        [] n = "p2" -> [ok |-> TRUE, body |-> <<Txt("Q"), [t |-> "break"], Txt("x")>>]
+       [] n = "q.liquid" -> [ok |-> TRUE, body |-> <<Txt("Q"), Cyc("g")>>]
        [] n = "broken" -> [ok |-> FALSE]]
 
 Datas == << [n \in {"v", "pv", "w"} |-> CASE n = "v" -> StrV("1") [] n = "pv" -> StrV("p") [] n = "w" -> StrV("W")],
